@@ -319,6 +319,20 @@ func runC11(r *Run) {
 		r.check(len(missing) == 0, "SetValWithStruct:kinds", r.fpos(cl), fmt.Sprintf("%d kinds handled, all 16 of the domain present", len(kinds)), "fields of kind "+strings.Join(missing, ", ")+" are silently not sent by the client")
 	})
 
+	r.rule("R4b", "the client encoder writes floats so that they read back exactly: strconv.FormatFloat with precision -1 (shortest round-trip form) (E8)", func() {
+		n := 0
+		r.P.AllFuncs("client", func(f *ssa.Function) {
+			for _, c := range callsMatching(f, false, nameIs("strconv.FormatFloat", "strconv.AppendFloat")) {
+				n++
+				prec := c.Common.Args[len(c.Common.Args)-2]
+				k, isC := constInt(asConst(prec))
+				r.check(isC && (k == -1 || k >= 17), fmt.Sprintf("%s:FormatFloat#%d:round-trip-precision", short(f.String()), n), r.pos(c.Instr), "precision -1: the shortest text that parses back to the same float",
+					"floats are sent with a fixed number of digits: a float64 that needs 16–17 significant digits (0.30000000000000004, math.Pi) arrives rounded, MaxFloat64 rounds up past the range and the server's bind fails")
+			}
+		})
+		r.atLeast("float formatting sites in the client", n, 1)
+	})
+
 	r.rule("R5", "visitor error latch (E1)", func() {
 		n := 0
 		for _, b := range []string{"HeaderBinding", "RespHeaderBinding", "CookieBinding", "QueryBinding", "FormBinding"} {
